@@ -48,6 +48,7 @@ func (x *Exec) bufArrays(st *State) (base, off, ln *Term) {
 }
 
 func (x *Exec) bufGet(st *State, ref *Term) *SliceV {
+	x.note("model: bytes.Buffer (NewBuffer / Bytes / Len / Write / Reset; the unread portion is a byte slice in ghost state, Write always reallocates)")
 	b, o, l := x.bufArrays(st)
 	s := &SliceV{Base: x.heapSelect(st, "BUF.base", b, ref), Off: x.heapSelect(st, "BUF.off", o, ref), Len: x.heapSelect(st, "BUF.len", l, ref)}
 	s.Cap = s.Len
